@@ -14,6 +14,7 @@ import (
 	"path/filepath"
 	"sort"
 	"strings"
+	"time"
 
 	"github.com/nspcc-dev/neo-go/pkg/util"
 	"github.com/nspcc-dev/neofs-node/pkg/local_object_storage/blobstor/common"
@@ -83,6 +84,7 @@ type result struct {
 	errs    []string
 	checked int
 	reads   int
+	retries int
 }
 
 func copyTree(src, dst string) error {
@@ -227,7 +229,10 @@ func scenario(h history, pre int) sched.Scenario {
 		for _, im := range res.images {
 			res.checked++
 			res.reads += nObj
-			if fp, what := checkImage(im, h.generic); fp != "" {
+			r0 := retriesChecked
+			fp, what := checkImage(im, h.generic)
+			res.retries += retriesChecked - r0
+			if fp != "" {
 				return fp, fmt.Sprintf("history %q crash image %q: %s", h.name, im.label, what)
 			}
 		}
@@ -257,22 +262,34 @@ func scenario(h history, pre int) sched.Scenario {
 		if res == nil {
 			return nil
 		}
-		return map[string]int{"crash_images_reopened_and_checked": res.checked, "object_reads_on_images": res.reads}
+		return map[string]int{"crash_images_reopened_and_checked": res.checked, "object_reads_on_images": res.reads, "puts_retried_on_recovered_images": res.retries}
 	}
 	return sched.Scenario{Name: h.name, Opt: sched.Options{PreemptBound: pre, MaxSteps: 4000}, Body: body, Check: check, Outcome: outcome, Counters: counters}
 }
 
-var imagesChecked, readsChecked int
+var imagesChecked, readsChecked, retriesChecked int
 
 // checkImage reopens one crash image with a fresh FSTree and evaluates the recovery oracle.
 func checkImage(im image, generic bool) (string, string) {
 	imagesChecked++
 	fs := fstree.New(fstree.WithPath(im.dir), fstree.WithDepth(1), fstree.WithPerm(0o700),
-		fstree.WithCombinedCountLimit(3), fstree.WithCombinedSizeLimit(4096), fstree.WithCombinedSizeThreshold(256))
+		fstree.WithCombinedCountLimit(3), fstree.WithCombinedSizeLimit(4096), fstree.WithCombinedSizeThreshold(256),
+		fstree.WithCombinedWriteInterval(time.Millisecond))
 	if err := fs.Open(false); err != nil {
 		return "reopen-failed", err.Error()
 	}
-	if err := fs.Init(common.ID{}); err != nil {
+	// the restarted node runs on the same kind of file system: the generic histories keep the generic writer
+	saved := vunix.Fault
+	vunix.Fault = func(name string, nth int) unix.Errno {
+		if generic && name == "Open" {
+			return unix.EOPNOTSUPP
+		}
+		return 0
+	}
+	err := fs.Init(common.ID{})
+	vunix.Fault = func(string, int) unix.Errno { return 0 }
+	defer func() { vunix.Fault = saved }()
+	if err != nil {
 		return "reopen-failed", err.Error()
 	}
 	defer fs.Close()
@@ -322,8 +339,24 @@ func checkImage(im image, generic bool) (string, string) {
 			return wk + ":Exists-disagrees", fmt.Sprintf("object %d exists=%v err=%v", i, ex, err)
 		}
 	}
+	// the clients retry after the restart: every object that is absent now is put again through the
+	// recovered storage (real writer, free running); an acknowledged retry must be readable
+	for i := 0; i < nObj; i++ {
+		if present[addrs[i]] || im.delBegun[i] {
+			continue
+		}
+		retriesChecked++
+		if err := fs.Put(addrs[i], blobs[i]); err != nil {
+			continue // a refused retry is not this property's business
+		}
+		b, err := fs.GetBytes(addrs[i])
+		if err != nil || !bytes.Equal(b, blobs[i]) {
+			return wk + ":retried-put-acknowledged-but-unreadable", fmt.Sprintf("object %d: put on the recovered storage returned nil, read: %v", i, err)
+		}
+		present[addrs[i]] = true
+	}
 	seen := map[oid.Address]int{}
-	err := fs.Iterate(func(a oid.Address, data []byte) error {
+	err = fs.Iterate(func(a oid.Address, data []byte) error {
 		seen[a]++
 		for i := range addrs {
 			if addrs[i] == a {
